@@ -23,11 +23,14 @@ Line formats (harness = H, model driver = D):
 """
 import json
 import os
+import time
 from .. import core
 
 P = "C15"
-SIG_CMP = "hazard-void-cmp-truncation"
-SIG_BS0 = "hazard-bsearch-index0"
+LEVEL = "proof"
+EXPLANATION = ("30 Coq theorems over micro-step models of qswsrqueue / qlfqueue (every interleaving), the hazard-pointer scan and "
+               "qdqueue; the models are tied to the working tree by M1 differential runs, M3 baton-scheduled micro-step replay of the "
+               "real lock-free code (access kinds + abstract dumps after every grant) and M4 free-running acceptance.")
 LO = 0x7e0000001000
 HI = 0x7e0080001000
 EXCLUDE = ["ds/qswsrqueue.c", "ds/qlfqueue.c", "hazardptrs.c", "ds/qdqueue.c"]
@@ -63,24 +66,25 @@ def gen_sw(rng, big=False):
         seq[0] += 1
         return "%s%d" % (k, seq[0])
     pp = [pop() for _ in range(n if rng.chance(9, 10) else 0)]
-    cp = [rng.weighted([("d", 45), ("D", 35), ("m", 20)]) for _ in range(rng.range(max(0, n - 3), n + 3) if rng.chance(9, 10) else 0)]
+    nblk = sum(1 for o in pp if o[0] == "E") if rng.chance(3, 4) else 99
+    cp = []
+    for _ in range(rng.range(max(0, n - 3), n + 3) if rng.chance(9, 10) else 0):
+        k = rng.weighted([("d", 45), ("D", 35), ("m", 20)])
+        if k == "D":
+            if nblk <= 0:
+                k = "d"
+            nblk -= 1
+        cp.append(k)
     total = 3 * (len(pp) + len(cp)) + 5
     sched = bursts(rng, 2, rng.range(total // 2, total), (1, 1, 1, 2, 2, 3, 4, 6, 10, 25) if not big else (1, 2, 5, 20, 60, 200))
     cap = 4 * (len(pp) + len(cp)) + 30
     return dict(mode="SW", elements=elements, override=override, cap=cap, pp=pp, cp=cp, sched=sched)
 
 
-SW_CORPUS = [
-    # the defect fixed by 4c2ca83: dequeue_blocking on an empty ring must block (stuck), with one element must return it
-    dict(mode="SW", elements=1, override=4, cap=12, pp=[], cp=["D"], sched="1111"),
-    dict(mode="SW", elements=1, override=4, cap=12, pp=["e1"], cp=["D"], sched="0001111"),
-    dict(mode="SW", elements=1, override=4, cap=12, pp=["e1", "e2"], cp=["D", "D", "D"], sched="000000" + "1" * 12),
-    dict(mode="SW", elements=1, override=0, cap=12, pp=[], cp=["D"], sched="11"),
-    # full ring: enqueue fails, enqueue_blocking waits for the consumer
-    dict(mode="SW", elements=1, override=3, cap=30, pp=["e1", "e2", "e3", "E4"], cp=["d", "m"], sched="0" * 14 + "1" * 4),
-    # wrap with interleaving at every publication point
-    dict(mode="SW", elements=1, override=2, cap=60, pp=["E1", "E2", "E3", "E4", "E5"], cp=["D", "D", "m", "D", "D", "D", "m"], sched="01" * 30),
-]
+def load_corpus():
+    """corpus/C15/regression.json: fixed cases that always run first"""
+    path = os.path.join(core.VERIF, "corpus", P, "regression.json")
+    return [dict(c, corpus=c.get("corpus", "regression")) for c in json.load(open(path))["cases"]]
 
 
 def gen_lf(rng, nt, thorough):
@@ -117,11 +121,6 @@ def gen_lf(rng, nt, thorough):
     return dict(mode="LF", cap=8 * sum(len(p) for p in progs) + 200, hi=0, progs=progs, sched=sched)
 
 
-def aba_scenario(hi):
-    B = ["e%d" % (100 + i) for i in range(1, 13)] + ["d"] * 10 + ["e%d" % (200 + i) for i in range(1, 11)] + ["d"] * 12 + ["e301"]
-    return dict(mode="LF", cap=200, hi=hi, progs=[["d"], B], sched="1" * 72 + "000" + "1" * (50 + 60 + 60 + 6), corpus="aba")
-
-
 def gen_hs(rng, nw, flmax):
     consistent = rng.chance(7, 10)
     pool = [LO + 16 * i for i in range(48)]
@@ -137,7 +136,7 @@ def gen_hs(rng, nw, flmax):
             fl.append(p)
     if rng.chance(1, 10) and len(fl) > 2:
         fl[rng.below(len(fl))] = 0
-    return dict(mode="HS", me=me, slots=slots, fl=fl)
+    return dict(mode="HS", me=me, slots=slots, fl=fl, consistent=consistent)
 
 
 def gen_m1(rng, n):
@@ -414,18 +413,21 @@ def nontrivial_lf(lines):
 def run(ctx):
     rng = ctx.rng
     quick = ctx.tier == "quick"
+    timing = {}
+    t0 = time.time()
     pr = ctx.coq_properties("Properties/Properties_C15.v")
+    timing["coq"] = round(time.time() - t0, 1); t0 = time.time()
     exe = ctx.link("c15_queues", ["c15_queues.c"], exclude=EXCLUDE)
     drv = ctx.model_driver("c15_driver")
+    timing["build"] = round(time.time() - t0, 1); t0 = time.time()
 
     mismatches = []      # (what, case-dict)
     rejects = []         # (signature|None, why, case-dict)   oracle verdicts on the implementation's behaviour
-    known_seen = {}      # signature -> (why, case)
     evals = 0
     nontriv = set()
     hist = {}
     samples = []
-    stats = dict(sw_wraps=0, sw_stuck=0, lf_scans=0, lf_reuse=0, hs_inconsistent=0, m4_elements=0)
+    stats = dict(sw_wraps=0, sw_stuck=0, lf_scans=0, lf_reuse=0, hs_far_pointers=0, skipped_after_stuck=0, m4_elements=0)
 
     def bump(k):
         hist[k] = hist.get(k, 0) + 1
@@ -436,25 +438,37 @@ def run(ctx):
         r = rng.fork()
         cases = []
         if ns == 3:
+            cases += load_corpus()
             cases += gen_m1(r, 150 if quick else 1500)
-            cases += [dict(c) for c in SW_CORPUS]
-            cases += [gen_sw(r) for _ in range(120 if quick else 1500)]
+            cases += [gen_sw(r) for _ in range(100 if quick else 1500)]
             cases += [gen_sw(r, big=True) for _ in range(3 if quick else 25)]
-            cases += [aba_scenario(0), aba_scenario(1)]
         hdr0, _, _ = run_harness(exe, [], ns)
         flmax, cw, ps = int(hdr0[3]), int(hdr0[4]), int(hdr0[5])
+        # regression inputs of the hazard-pointer defects fixed by e07a9b8 / 38d5aa8: protected pointer with bit 31 set
+        # (sorted to index 0 by the truncating comparator), pointers 2^32 apart, protected pointer alone at index 0
+        cases += [dict(mode="HS", me=0, slots=[[0, 0], [HI + 0x40, 0]] + [[0, 0]] * (ns - 2), fl=[HI + 0x40], consistent=False),
+                  dict(mode="HS", me=1, slots=[[LO, LO + (1 << 32)], [0, 0]] + [[HI, LO + 16]] * (ns - 2), fl=[LO + (1 << 32), HI, LO + 32, LO], consistent=False),
+                  dict(mode="HS", me=ns - 1, slots=[[HI + 16 * i, LO + 16 * i] for i in range(ns - 1)] + [[5, 6]], fl=[HI, LO, HI + 16, 7], consistent=False),
+                  dict(mode="BS", len=4, x=1, l=[1, 2, 3, 4]), dict(mode="BS", len=2, x=LO, l=[LO, HI]),
+                  dict(mode="BS", len=3, x=HI, l=[LO, LO + 16, HI])]
         cases += [gen_hs(r, ns, flmax) for _ in range(60 if quick else 600)]
-        cases += [gen_lf(r, K, not quick) for _ in range(60 if quick else 700)]
+        cases += [gen_lf(r, K, not quick) for _ in range(40 if quick else 500)]
         hdr, hout, rc = run_harness(exe, cases, ns, timeout=900)
         mout = run_model(drv, cases, cw, ps)
         himpl = split_cases(cases, hout)
         # the model prints nothing for M4 and one F line for SW/LF as well: same splitter
         hmod = split_cases(cases, mout)
+        after_stuck = False
         for c, il, ml in zip(cases, himpl, hmod):
-            evals += 1
             m = c["mode"]
-            bump(m)
             tag = dict(c, config="%dx1" % ns)
+            if il is None and after_stuck:
+                stats["skipped_after_stuck"] += 1      # the harness process ends after an lfq case with parked tasks
+                continue
+            evals += 1
+            bump(m)
+            if m == "LF" and il and il[-1].startswith("F") and stuck_of(il[-1], 1):
+                after_stuck = True
             if il is None or ml is None:
                 mismatches.append(("%s: no output (harness died, rc=%s)" % (m, rc), tag))
                 rejects.append((None, "hang or crash of the real code", tag))
@@ -463,33 +477,24 @@ def run(ctx):
                 if il != ml:
                     mismatches.append(("%s impl %s model %s" % (m, il, ml), tag))
                 if m == "BS" and c["x"] in c["l"][:c["len"]] and il == ["BS 0"] and sorted(c["l"]) == c["l"]:
-                    i = c["l"].index(c["x"])
-                    if i == 0 and c["l"].count(c["x"]) == 1:
-                        known_seen.setdefault(SIG_BS0, ("binary_search does not find the element at index 0 of a sorted list", tag))
-                    else:
-                        rejects.append((None, "binary_search misses an element of a sorted list at index %d" % i, tag))
+                    rejects.append((None, "binary_search does not find the element at index %d of a sorted list" % c["l"].index(c["x"]), tag))
                 continue
             if m == "HS":
                 mp = ml[0].split("|")
                 ip = il[0].split("|")
-                cons = mp[0].split()[1] == "1"
-                if len(ip) < 3:
-                    mismatches.append(("HS: %s" % il, tag)); continue
+                if len(ip) < 3 or len(mp) < 3:
+                    mismatches.append(("HS: impl %s model %s" % (il, ml), tag)); continue
                 kept, freed = ip[1].split(), ip[2].split()
                 prot = set(str(p) for w, s in enumerate(c["slots"]) if w != c["me"] for p in s if p)
                 bad = [p for p in freed if p in prot]
-                if cons:
-                    if [x.split() for x in mp[1:3]] != [kept, freed]:
-                        mismatches.append(("hazardous_scan impl kept/freed %s model %s" % (ip[1:], mp[1:]), tag))
-                    if bad:
-                        rejects.append((None, "hazardous_scan freed %s which another worker's hazard slot names" % bad, tag))
-                    elif len(freed) and len(kept):
-                        nontriv.add(("HS", h_line(c)))
-                else:
-                    stats["hs_inconsistent"] += 1
-                    if bad:
-                        known_seen.setdefault(SIG_CMP, ("hazardous_scan freed %s although another worker's hazard slot names it "
-                                                        "(void_cmp truncates the pointer difference to int)" % bad, tag))
+                if [x.split() for x in mp[1:3]] != [kept, freed]:
+                    mismatches.append(("hazardous_scan impl kept/freed %s model %s" % (ip[1:], mp[1:]), tag))
+                if bad:
+                    rejects.append((None, "hazardous_scan freed %s although another worker's hazard slot names it" % bad, tag))
+                elif len(freed) and len(kept):
+                    nontriv.add(("HS", h_line(c)))
+                if not c.get("consistent", True):
+                    stats["hs_far_pointers"] += 1
                 continue
             # ---- M3
             ig, mg = grants(il), grants(ml)
@@ -499,13 +504,6 @@ def run(ctx):
             mstuck = stuck_of(ml[-1], 3)
             agree = d is None and not inc and istuck == mstuck
             why = sw_oracle(c, il) if m == "SW" else lf_oracle(c, il)
-            if m == "LF" and c.get("hi"):
-                # witness of the hazard-pointer defect: same script agrees on the low arena, breaks on the high one
-                if why:
-                    known_seen.setdefault(SIG_CMP, ("qlfqueue with node addresses whose bit 31 is set: " + why, dict(tag, impl_tail=il[-6:])))
-                elif not agree:
-                    mismatches.append(("LF(high arena) diverges from the model at grant %s without a property failure" % d, tag))
-                continue
             if not agree:
                 mismatches.append(("%s micro-step replay: first difference at grant %s: impl %r model %r; stuck impl %s model %s" % (
                     m, d, ig[d] if d is not None and d < len(ig) else None, mg[d] if d is not None and d < len(mg) else None, istuck, mstuck),
@@ -533,9 +531,10 @@ def run(ctx):
             if len(samples) < 4 and agree and m in ("SW", "LF") and len(ig) > 20:
                 samples.append(dict(script=h_line(c)[:300], grants=len(ig), last=il[-2:]))
 
+    timing["m1_m3"] = round(time.time() - t0, 1); t0 = time.time()
     # ------------------------------------------------ M4: free-running tasks
     m4_cfg = [(1, 1), (2, 2), (4, 1)]
-    per = 3000 if quick else 20000
+    per = 2000 if quick else 20000
     for (ns, nw) in m4_cfg:
         r = rng.fork()
         cases = []
@@ -566,19 +565,15 @@ def run(ctx):
             tag = dict(c, config="%dx%d" % (ns, nw))
             why, hi = m4_oracle(c, lines if lines and lines[-1].startswith("F |") else None)
             if why:
-                if c["kind"] in (1, 2) and hi in (1, None):
-                    # node addresses with bit 31 set were in use (or the run died before telling): the hazard pointers
-                    # did not protect anything in this run (see SIG_CMP); recorded under that class, M3 is the detector
-                    known_seen.setdefault(SIG_CMP, ("free-running %s: %s (node pool addresses with bit 31 set)" % (["swsr", "lfq", "dq"][c["kind"]], why), tag))
-                else:
-                    rejects.append((None, "free-running %s on %dx%d: %s" % (["qswsrqueue", "qlfqueue", "qdqueue"][c["kind"]], ns, nw, why), tag))
+                rejects.append((None, "free-running %s on %dx%d: %s" % (["qswsrqueue", "qlfqueue", "qdqueue"][c["kind"]], ns, nw, why), tag))
             else:
                 stats["m4_elements"] += c["nprod"] * c["per"]
                 if ns * nw > 1:
                     nontriv.add(("M4", ns, nw, h_line(c)))
 
+    timing["m4"] = round(time.time() - t0, 1)
     # ------------------------------------------------ verdict
-    ctx.cov.update(
+    ctx.cov.update(timing_s=timing,
         evaluations=evals, distinct_nontrivial=len(nontriv), samples=samples,
         rule="M1: create sizes around cache-line multiples, void_cmp on pointer pairs near/far/2^31/2^32 apart, binary_search with the "
              "target at index 0 / last / absent, hazardous_scan on 3-4 workers' slots; M3: swsr scripts on rings of 1..7 and 64/128 slots "
@@ -586,23 +581,13 @@ def run(ctx):
              "in which a thread was preempted inside an operation, lfq case in which an operation retried/helped, scan case with both "
              "kept and freed pointers, free-running case on more than one worker",
         traces_validated_against_impl=evals, input_distribution=hist, configs=["3x1", "4x1"] + ["%dx%d" % c for c in m4_cfg],
-        correspondence_mismatches=len(mismatches), stats=stats,
-        refuted_on_current_tree=["scan_protected_freed_refuted", "void_cmp_trunc_refuted", "bsearch_index0_refuted"])
+        correspondence_mismatches=len(mismatches), stats=stats)
     ctx.assumptions += [
         "sequential consistency (fences are schedule points, not modelled as reordering barriers)",
         "M3 granularity: plain loads/stores between two interposed operations run in one grant (DESIGN.md section 4, M3); "
         "the theorems quantify over the finer single-access interleavings",
         "Lfq.v abstracts node reclamation (fresh ids); reuse is covered by Hazard.v + M3 on the real hazard pointer code with a LIFO node arena",
         "qdqueue advertisement/last_consumed heuristics abstracted as arbitrary extra attempts (Dq.v)"]
-    unlisted = []
-    for sig, (why, case) in known_seen.items():
-        if core.match_known(P, sig) is not None:
-            ctx.violation(sig, why, case)           # -> KNOWN-FINDING
-        else:
-            unlisted.append(sig)
-            ctx.notes.append("finding reproduced on the unchanged tree, not yet listed in known_findings.json (lead decides): %s: %s" % (sig, why))
-    ctx.cov["findings_reproduced"] = sorted(known_seen)
-    ctx.cov["findings_unlisted"] = unlisted
     broken = bool(mismatches) or not pr["ok"]
     if broken:
         what = ("correspondence model/implementation broken (%d cases): %s" % (len(mismatches), mismatches[0][0][:300])) if mismatches else \
